@@ -29,6 +29,7 @@ let () = iter_lines (fun line ->
         if o <> "" then begin
           if o.[0] = 'v' then
             rs := !rs @ [ (n_to_int !st.pr_err) = 0 && (match read_lead (pins_of !st) !f with POk _ -> true | _ -> false) ]
+          else if o.[0] = 'I' then rs := !rs @ [true]     (* zck_init_adv_read in the middle: the pins set before stay *)
           else if o.[0] = 'F' then begin f := bytes_of_hex (String.sub o 1 (String.length o - 1)); rs := !rs @ [true] end
           else begin let (st', r) = set_opt !st (parse_op o) in st := st'; rs := !rs @ [r] end
         end) (if ops = "-" then [] else String.split_on_char ',' ops);
